@@ -12,6 +12,8 @@ pub mod crypto;
 pub mod kernels;
 #[cfg(not(kani))]
 pub mod witness;
+#[cfg(not(kani))]
+pub mod witness_pm;
 
 /// re-export for the native witness programs (iroh-blobs is not a dependency of /verif/replay)
 pub use iroh_blobs::Hash;
